@@ -38,11 +38,21 @@ def objects_tokens(rng, objs):
     return toks
 
 
-def domain_tree():
-    return gen_core.domain_tree([("noop", [], L(), L(S("and"), L(S("r"))))])
+# the same type names arranged in other trees: a problem generated for the standard tree is then well typed
+# or not depending on the whole tree of the domain it is parsed over (the specification decides)
+ALT_TYPES = [
+    [("t1", "object"), ("t2", "object"), ("t3", "t1")],
+    [("t2", "object"), ("t1", "t2"), ("t3", "object")],
+    [("t1", "object"), ("t2", "t1"), ("t3", "t2")],
+    [("t3", "object"), ("t1", "t3"), ("t2", "object")],
+]
 
 
-def gen_problem(rng, cid, repeats=False):
+def domain_tree(types=None):
+    return gen_core.domain_tree([("noop", [], L(), L(S("and"), L(S("r"))))], types=types)
+
+
+def gen_problem(rng, cid, repeats=False, alt_types=False):
     objs = list(gen_core.OBJS) + [o for o in EXTRA_OBJS if rng.random() < 0.6]
     rng.shuffle(objs)
     atoms = gen_core.ground_atoms(objs)
@@ -72,7 +82,10 @@ def gen_problem(rng, cid, repeats=False):
     goal_items = [L(S(p), *[S(x) for x in a]) for p, a in case["glits"]] + case["gcmps"]
     tree = L(S("define"), L(S("problem"), S(case["name"])), L(S(":domain"), S(case["domain"])),
              L(S(":objects"), *objects_tokens(rng, case["objs"])), L(S(":init"), *items), L(S(":goal"), L(S("and"), *goal_items)))
-    return {"id": cid, "kind": kind, "dom": domain_tree(), "tree": tree,
+    types = rng.choice(ALT_TYPES) if alt_types and rng.random() < 0.5 else None
+    if types is not None:
+        kind += "+alt-types"
+    return {"id": cid, "kind": kind, "dom": domain_tree(types), "tree": tree,
             "layout": rng.randrange(1 << 30) if rng.random() < 0.5 else None}
 
 
